@@ -15,6 +15,15 @@ if ! (cd engine && cargo build --offline >../out/build.log 2>&1); then
 fi
 VERIF_TIER="$TIER" engine/target/debug/vp check "$ID" "$TIER"
 code=$?
+# thorough tier of C08 / C13: coverage-guided layer (libFuzzer) on top
+if [ "$code" = 0 ] && [ "$TIER" = thorough ] && { [ "$ID" = C08 ] || [ "$ID" = C13 ]; }; then
+  tools/fuzz_layer.sh "$ID" "${VP_FUZZ_RUNS:-40000}" "${VERIF_SEED:-0}"
+  fcode=$?
+  case "$fcode" in
+    1) code=1 ;;
+    3) echo "NOTE: the libFuzzer layer of $ID could not run in this environment; the proptest layers above are unaffected" >&2 ;;
+  esac
+fi
 case "$code" in
   0|1|2) exit "$code" ;;
   *) echo "HARNESS-ERROR: vp exited with $code" >&2; exit 2 ;;
